@@ -50,7 +50,7 @@ def main():
                 sh("git checkout -- . && rm -f tests/demo_seed.rs", cwd=WT)
                 # 1. demo on the clean tree
                 shutil.copy(demo, WT + "/tests/demo_seed.rs")
-                rc, o = sh("cargo test --offline --test demo_seed 2>&1 | tail -30", cwd=WT)
+                rc, o = sh("cargo test --offline --features nb,embedded-hal-02 --test demo_seed 2>&1 | tail -30", cwd=WT)
                 clean_pass = "test result: ok" in o and "FAILED" not in o
                 ver["demo_on_clean_tree"] = "PASS" if clean_pass else "FAIL: " + o[-400:]
                 os.remove(WT + "/tests/demo_seed.rs")
@@ -69,7 +69,7 @@ def main():
                 ver["existing_suite_with_patch"] = "PASS %s" % res if ok else "FAIL %s %s" % (res, "\n".join(l for l in o.splitlines() if "FAILED" in l or "panicked" in l)[:600])
                 # 4. demo with the patch
                 shutil.copy(demo, WT + "/tests/demo_seed.rs")
-                rc, o = sh("cargo test --offline --test demo_seed 2>&1 | tail -40", cwd=WT)
+                rc, o = sh("cargo test --offline --features nb,embedded-hal-02 --test demo_seed 2>&1 | tail -40", cwd=WT)
                 mut_fail = "FAILED" in o or "test result: FAILED" in o
                 ver["demo_with_patch"] = "FAIL (as required)" if mut_fail else "PASS (mutant not demonstrated): " + o[-300:]
                 os.remove(WT + "/tests/demo_seed.rs")
